@@ -178,6 +178,11 @@ func init() {
 		if !t.IsFalse() {
 			p.regions = append(p.regions, region{id: argString(fr, args[0]), cond: t, label: argString(fr, args[1])})
 		}
+		if t.IsTrue() && strings.Contains(argString(fr, args[1]), ".native.") {
+			// a region of an assertion only the native run decides: left in the trace (the native shim does the
+			// same), so that the driver can tell a recorded finding from a new violation
+			p.res.Events = append(p.res.Events, "known:"+argString(fr, args[0])+":"+argString(fr, args[1]))
+		}
 		return nil
 	}
 	harnessAPI["symxPermuteMaps"] = func(fr *frame, args []value) value {
